@@ -318,11 +318,17 @@ func (t *Transport) Shutdown(ctx context.Context) error {
 		unregisterFunc()
 	}
 
-	t.dtChannelsLk.Lock()
-	defer t.dtChannelsLk.Unlock()
+	// Take a snapshot of the channels, so that the channels lock is not held
+	// while waiting for each channel to shut down
+	t.dtChannelsLk.RLock()
+	dtChannels := make([]*dtChannel, 0, len(t.dtChannels))
+	for _, ch := range t.dtChannels {
+		dtChannels = append(dtChannels, ch)
+	}
+	t.dtChannelsLk.RUnlock()
 
 	var eg errgroup.Group
-	for _, ch := range t.dtChannels {
+	for _, ch := range dtChannels {
 		ch := ch
 		eg.Go(func() error {
 			return ch.shutdown(ctx)
